@@ -315,6 +315,8 @@ def run_shard(cfg):
     from pyoak import config as _config
 
     _config.RUNTIME_TYPE_CHECK = cfg["k"] % 3 == 2
+    _config.TRACE_LOGGING = cfg["k"] % 3 == 1   # the other switch a user may turn on; it only adds log records
+    rec.extra["trace_logging_in_shard_1_mod_3"] = True
     rec.extra["runtime_type_check_in_shard_2_mod_3"] = True
     rec.extra["first_use"] = zoo.warm_up(cfg["k"], base=lambda: FL(1), derived=lambda: FS(2))
     u, b, menu = op_menu()
